@@ -628,7 +628,7 @@ fn run(tier: Tier, shard: usize, n: usize) -> Report {
 		Tier::Thorough => (vec![1, 600, 1023, 1025], vec![Sel::None, Sel::FirstOfChunk0, Sel::LastOfChunk0, Sel::FirstOfChunk1, Sel::EveryOtherOfOldestChunk, Sel::AllOfLastPartialChunk, Sel::AllOfOldestChunk, Sel::AllOfChunk1], 4),
 	};
 	rep.extra.insert("bound_depth".into(), json!(depth));
-	let mut x = X { sc: &sc, gen, pool: Pool::new((depth + 1) * 1025 + 8), ks, sels, depth, memo: HashSet::new(), me: shard, n, prefix_ops: vec![], only: None, killed: false, killed_sels: vec![] };
+	let mut x = X { sc: &sc, gen, pool: Pool::new((depth + 2) * 1025 + 8), ks, sels, depth, memo: HashSet::new(), me: shard, n, prefix_ops: vec![], only: None, killed: false, killed_sels: vec![] };
 	let hist = Hist { blocks: vec![], head: None, next_out: 0, uniq: 0 };
 	let mut ops = vec![];
 	dfs(&mut x, &root, &hist, &mut ops, &mut rep, (0, n));
@@ -653,6 +653,21 @@ fn run(tier: Tier, shard: usize, n: usize) -> Report {
 	x.sels = vec![Sel::None, Sel::EveryOtherOfOldestChunk, Sel::LastOfChunk0, Sel::AllOfChunk1];
 	x.killed_sels = vec![Sel::EveryOtherOfOldestChunk, Sel::LastOfChunk0, Sel::AllOfChunk1];
 	// (the start state itself was expanded by the second start with another alphabet)
+	x.memo.clear();
+	let mut ops = vec![];
+	dfs(&mut x, &root, &hist, &mut ops, &mut rep, (0, n));
+	// fourth start: four chunks (three blocks of 1025 outputs), so that incremental updates begin in the fourth chunk
+	// and beyond while older chunks hold unspent outputs (chunk indices and positions in the chunk MMR differ from
+	// the fourth chunk on: 0, 1, 3, 4, 7 ...)
+	x.prefix_ops = vec![
+		Op::Apply { k: 1025, sel: Sel::None, parent: None, commit: true },
+		Op::Apply { k: 1025, sel: Sel::None, parent: None, commit: true },
+		Op::Apply { k: 1025, sel: Sel::None, parent: None, commit: true },
+	];
+	x.ks = vec![600];
+	x.sels = vec![Sel::None, Sel::FirstOfChunk0, Sel::AllOfLastPartialChunk];
+	x.killed_sels = vec![Sel::FirstOfChunk0];
+	x.depth = if tier == Tier::Quick { 2 } else { 3 };
 	x.memo.clear();
 	let mut ops = vec![];
 	dfs(&mut x, &root, &hist, &mut ops, &mut rep, (0, n));
